@@ -199,7 +199,31 @@ def classify_guard(n, taken):
 
 def load():
     m = build.load_unit(UNIT)
+    check_tag_tests_recognised(m)
     return m
+
+
+def check_tag_tests_recognised(m):
+    """Anchor: the chunk-id tests (is this the 'fact' chunk? is the container 'RIFF' / 'WAVE'?) are library comparisons of the four
+    bytes (memcmp and relatives), which is how the guards of the walks are recognised.  A hand-written byte loop over a header
+    member and one of the tag arrays may be just as right, but the rules then cannot tell which walk belongs to which kind of
+    header: inconclusive, not a violation."""
+    from .. import flow
+    tags = set(n for n in ("riff", "wave", "fmt", "fact", "data") if n in m.globals)
+    for fn in m.defined_functions():
+        if not fn.name.startswith("rf_wavheader_") or not fn.loops_headers():
+            continue
+        for i in fn.insts():
+            if i.op != "load" or i.ty != "i8" or not fn.in_cycle(i):
+                continue
+            try:
+                pp = flow.resolve_ptr(i.ops[0], m)
+            except AnalysisError:
+                continue
+            if pp.root.k == "global" and pp.root.name in tags and pp.var:
+                raise AnalysisError("anchor vanished: %s compares a chunk id with @%s byte by byte in a loop (%s): the walks' guards "
+                                    "('the chunk is fact', 'the container is RIFF/WAVE') are recognised from memcmp-style comparisons only"
+                                    % (fn.name, pp.root.name, i.loc))
 
 
 def success_paths(fn, m):
